@@ -82,7 +82,7 @@ impl Check for C11 {
         (server_id, secret, key).prop_map(|(server_id, secret, key)| Case { server_id, secret, key }).boxed()
     }
     fn cases(&self, tier: Tier) -> u64 {
-        tier.pick(200_000, 10_000_000)
+        tier.pick(200_000, 50_000_000)
     }
     fn run(&self, case: &Case) -> (Verdict, CaseInfo) {
         decide(case)
